@@ -304,7 +304,13 @@ class RF24:
         return result
 
     def write(self, buf, ask_no_ack=False, write_only=False):
-        if not buf or len(buf) > 32:
+        if not self.dynamic_payloads:
+            pl_width = self.payload_length
+            if len(buf) < pl_width:
+                buf = buf + b"\0" * (pl_width - len(buf))
+            elif len(buf) > pl_width:
+                buf = buf[:pl_width]
+        elif not buf or len(buf) > 32:
             raise ValueError("buffer length must be in range [1, 32]")
         self.clear_status_flags()
         if self._status & 1:
@@ -313,12 +319,6 @@ class RF24:
         if config & 3 != 2:
             self._reg_write(0, (config & 0x7C) | 2)
             time.sleep(0.00015)
-        if not self.dynamic_payloads:
-            pl_width = self.payload_length
-            if len(buf) < pl_width:
-                buf = buf + b"\0" * (pl_width - len(buf))
-            elif len(buf) > pl_width:
-                buf = buf[:pl_width]
         self._reg_write_bytes(0xA0 | (bool(ask_no_ack) << 4), buf)
         if not write_only:
             self.ce_pin = 1
